@@ -42,7 +42,9 @@ impl Constraint {
     /// Returns the type of integer that should be used in a representation when applying the
     /// GeneralConstraint.
     pub fn integer_constraints(&self) -> IntegerType {
-        let (mut min, mut max, mut is_extensible) = (i128::MAX, i128::MIN, false);
+        let (mut min, mut max) = (i128::MAX, i128::MIN);
+        // An extension marker on the element set as a whole, e.g. `((0..5), ...)`
+        let mut is_extensible = matches!(self, Constraint::Subtype(set) if set.extensible);
         if let Ok((cmin, cmax, extensible)) = self.unpack_as_value_range() {
             is_extensible = is_extensible || extensible;
             if let Some(ASN1Value::Integer(i)) = cmin {
